@@ -986,6 +986,78 @@ func genCase(a *app.Teleport, base sdk.Context, r *hlib.Rand, id, maxSteps int, 
 }
 
 // ---------------------------------------------------------------------------------------------
+// corpus: the witnesses of the two repaired defects (KNOWN_FINDINGS.txt, "fixed:" entries), first in every run
+// ---------------------------------------------------------------------------------------------
+
+type scripted struct {
+	who int    // index into the ascending validator list
+	bt  uint64 // block time of the submission
+}
+
+func scriptCase(a *app.Teleport, base sdk.Context, id int, mode string, nvals int, epoch, gnum, trust uint64, script []scripted, tag string) Result {
+	r := hlib.NewRand(uint64(7700 + id))
+	g := &gen{r: r, tags: map[string]int{}}
+	g.mkKeys(nvals)
+	sorted := sortedAddrs(func() [][]byte {
+		var v [][]byte
+		for _, x := range g.addrs {
+			v = append(v, append([]byte{}, x[:]...))
+		}
+		return v
+	}())
+	sp := &Spec{ID: id, Mode: mode, ChainID: 56, Epoch: epoch, Interval: 3, Trust: trust, Contract: "00"}
+	for _, x := range sorted {
+		sp.Vals = append(sp.Vals, hlib.Hex(x[:]))
+	}
+	gh := bsctypes.Header{
+		ParentHash: make([]byte, 32), UncleHash: emptyUncle[:], Coinbase: sorted[0][:], Root: r.Bytes(32), TxHash: make([]byte, 32),
+		ReceiptHash: make([]byte, 32), Bloom: make([]byte, 256), Difficulty: diffBytes(2), Height: clienttypes.NewHeight(0, gnum),
+		GasLimit: 30000000, Time: 1000, Extra: mkExtra(r, sorted), MixDigest: make([]byte, 32), Nonce: make([]byte, 8),
+	}
+	seal(&gh, g.byAddr[sorted[0]], sp.ChainID)
+	sp.Genesis = fromProto(gh)
+	sp.ConsTime, sp.ConsRev, sp.ConsNum, sp.ConsRoot = gh.Time, 0, gnum, hlib.Hex(gh.Root)
+	rn := newRunner(a, base, sp)
+	res := Result{Obs: []Obs{}}
+	res.Create = rn.create()
+	res.Oracle = append(res.Oracle, rn.oracle(rn.headers[0]))
+	for _, sc := range script {
+		head := rn.clientState(rn.ctx).Header
+		n := head.Height.RevisionHeight + 1
+		ph := head.Hash()
+		signer := sorted[sc.who]
+		d := uint64(1)
+		if sorted[n%uint64(len(sorted))] == signer {
+			d = 2
+		}
+		h := bsctypes.Header{
+			ParentHash: ph[:], UncleHash: emptyUncle[:], Coinbase: signer[:], Root: r.Bytes(32), TxHash: make([]byte, 32),
+			ReceiptHash: make([]byte, 32), Bloom: make([]byte, 256), Difficulty: diffBytes(d), Height: clienttypes.NewHeight(0, n),
+			GasLimit: 30000000, Time: head.Time + 3, Extra: mkExtra(r, nil), MixDigest: make([]byte, 32), Nonce: make([]byte, 8),
+		}
+		seal(&h, g.byAddr[signer], sp.ChainID)
+		st := Step{BT: sc.bt, H: fromProto(h), Tag: tag}
+		sp.Steps = append(sp.Steps, st)
+		res.Obs = append(res.Obs, rn.step(st))
+		res.Oracle = append(res.Oracle, rn.oracle(rn.headers[len(rn.headers)-1]))
+	}
+	res.Spec = *sp
+	return res
+}
+
+func corpus(a *app.Teleport, base sdk.Context, emit func(Result)) {
+	id := 900000
+	for _, mode := range []string{"raw", "keeper"} {
+		// number < limit: validator 1 seals block 1 and tries block 2 (and 3); 12 validators: blocks 1, 4, 5
+		emit(scriptCase(a, base, id, mode, 5, 200, 0, 999999999, []scripted{{1, 1010}, {1, 1010}, {2, 1010}, {1, 1010}, {3, 1010}, {1, 1010}}, "corpus-wrap"))
+		emit(scriptCase(a, base, id+1, mode, 12, 20, 0, 999999999, []scripted{{1, 1010}, {2, 1010}, {3, 1010}, {1, 1010}, {4, 1010}, {1, 1010}, {4, 1010}}, "corpus-wrap"))
+		// the consensus state of the creation height expires and is pruned while that height is inside the window
+		emit(scriptCase(a, base, id+2, mode, 7, 200, 1000, 12, []scripted{{1, 1010}, {2, 1014}, {0, 1014}, {3, 1014}, {0, 1020}}, "corpus-prune"))
+		id += 3
+	}
+}
+
+// ---------------------------------------------------------------------------------------------
 // recorded main-net fixture of the package's testdata
 // ---------------------------------------------------------------------------------------------
 
@@ -1053,6 +1125,7 @@ func main() {
 	default:
 		root := hlib.NewRand(*seed)
 		tags := map[string]int{}
+		corpus(a, base, func(r Result) { o.Emit(r) })
 		for i := 0; i < *n; i++ {
 			o.Emit(genCase(a, base, root.Fork(uint64(i)), i, *steps, tags))
 		}
